@@ -359,12 +359,15 @@ cJSON *set_or_call(const struct peer *p, const cJSON *request, enum type what)
 	char *rendered_message = cJSON_PrintUnformatted(routed_message);
 	if (unlikely(rendered_message == NULL)) {
 		response = create_error_response_from_request(p, request, INTERNAL_ERROR, "reason", "could not render message");
-		goto delete_json;
+		remove_routing_information(routing_request);
+		cJSON_Delete(routed_message);
+		return response;
 	}
 
 	if (unlikely(e->peer->send_message(e->peer, rendered_message,
 	                                   strlen(rendered_message)) != 0)) {
 		response = create_error_response_from_request(p, request, INTERNAL_ERROR, "reason", "could not send routing information");
+		remove_routing_information(routing_request);
 	}
 
 	cjet_free(rendered_message);
